@@ -129,9 +129,9 @@ def _text_gc_order(v, events):
 
 
 def _tree_gc_order(v, events):
-    """KF-TREE-GC-ORDER: one client deletes a tree element while another client
-    inserts a tree element in the same history, and the failure is a silent
-    difference in the ORDER of the tree's top-level children only."""
+    """KF-TREE-GC-ORDER: one client deletes a tree node (element or text) while another
+    client inserts one in the same history, and the failure is a silent difference in the
+    ORDER of sibling nodes only (the serialised trees hold the same multiset of characters)."""
     import json as _json
     if v["tag"] not in ("RefEquiv", "Converged", "BuildEquiv"):
         return False
@@ -142,23 +142,24 @@ def _tree_gc_order(v, events):
     for e in events:
         if e["ev"] == "Edit" and e.get("outcome") == "ok" and (e.get("op") or {}).get("k") == "tree.edit":
             m = (e.get("args") or {}).get("mode")
-            if m == "delelem":
+            if m in ("delelem", "deltext", "reptext"):
                 deleters.add(e["c"])
-            if m == "inselem":
+            if m in ("inselem", "instext", "reptext"):
                 inserters.add(e["c"])
     if not any(d != i for d in deleters for i in inserters):
         return False
     ev = v.get("event") or {}
     refs = {e["s"]: e["content"] for e in events if e["ev"] == "Ref"}
-    kids = lambda doc: [_json.dumps(c, sort_keys=True) for c in ((doc.get("tr") or {}).get("children") or [])]
+    tree = lambda doc: _json.dumps(doc.get("tr") or {}, sort_keys=True)
     rest = lambda doc: _json.dumps({k: x for k, x in doc.items() if k != "tr"}, sort_keys=True)
 
     def order_only(mine, theirs):
+        # the same multiset of characters in the serialised tree (same nodes, same text), another order
         try:
             a, b = _json.loads(mine), _json.loads(theirs)
         except Exception:
             return False
-        return sorted(kids(a)) == sorted(kids(b)) and rest(a) == rest(b) and kids(a) != kids(b)
+        return sorted(tree(a)) == sorted(tree(b)) and rest(a) == rest(b) and tree(a) != tree(b)
 
     if ev.get("ev") == "Build":
         n = ev.get("s")
